@@ -96,6 +96,7 @@ class TourAdapter(RoutingAdapter):
             insts = self.instances(env, variant, rng, tier)
             vtag = self.variant_tag(variant)
             for td_in, meta in insts:
+                ctx.count("%s/%s/instances/%s" % (self.name, vtag, meta.get("kind", "?")))
                 for ch in self.choosers(tier):
                     eps, td_reset, td_fin, actions = envh.rollout(env, td_in, rng, choosers=[ch], pad_steps=0,
                                                                   max_steps=self.max_steps(variant))
